@@ -17,6 +17,7 @@ RANK = {
     # --- sandbox is created here ---
     ('setup', 'main'): 4,
     'post_setup': 5,
+    ('act', 'exe_input'): 5.5,
     ('act', 'prepare'): 6,
     ('act', 'execute'): 7,
     ('before-assert', 'main'): 8,
@@ -29,13 +30,13 @@ CLASS_OF_KIND = {
     'svh_validation': 'VALIDATION_ERROR', 'undefined_symbol': 'VALIDATION_ERROR',
     'svh_hard': 'HARD_ERROR', 'sh_hard': 'HARD_ERROR', 'pfh_hard': 'HARD_ERROR', 'eh_hard': 'HARD_ERROR',
     'raise_hard': 'HARD_ERROR', 'raise_exc': 'INTERNAL_ERROR', 'pfh_fail': 'FAIL',
-    'parse_exception': 'SYNTAX_ERROR',
+    'parse_exception': 'SYNTAX_ERROR', 'exe_input_report': 'HARD_ERROR',
     'exit_nonzero': None,  # depends on the phase: FAIL in assert, HARD_ERROR elsewhere
     'spawn_error': 'HARD_ERROR',
     'timeout_kill': 'HARD_ERROR',  # a timeout is an error, never a FAIL
 }
 
-PREV_OF_RANK = {4: 'SETUP', 5: 'SETUP', 6: 'SETUP', 7: 'ACT', 8: 'BEFORE_ASSERT', 9: 'ASSERT'}
+PREV_OF_RANK = {4: 'SETUP', 5: 'SETUP', 5.5: 'SETUP', 6: 'SETUP', 7: 'ACT', 8: 'BEFORE_ASSERT', 9: 'ASSERT'}
 
 
 def index_case(case):
@@ -123,7 +124,7 @@ def expected_effects(case, status, act_mode, primary_loc, has_atc_process=True, 
         return seq, False
     if mains('setup', 4):
         return seq, True
-    if stop is not None and stop[0] == 5:
+    if stop is not None and stop[0] in (5, 5.5):
         return seq, True
     seq.append(('prepare', 'act'))
     if stop is not None and stop[0] == 6:
@@ -200,7 +201,7 @@ def executed_items(case, status, act_mode, primary_loc, failing_cleanup_ids=()):
         return out
     if (stop is not None and stop[0] <= 3) or status == 'SKIP':
         return out
-    if mains('setup', 4) or (stop is not None and stop[0] in (5, 6)):
+    if mains('setup', 4) or (stop is not None and stop[0] in (5, 5.5, 6)):
         cleanup()
         return out
     out.append(('act', 0, None))
